@@ -141,7 +141,10 @@ pub fn scenario(idx: usize, seed: u64, max_steps: usize) -> ScenarioResult {
                 let was_connected = before.contains(&d.peer_id);
                 let ev_mark = w.log.lock().events.get(&l.idx).map(|v| v.len()).unwrap_or(0);
                 let t0 = w.now();
-                let r = d.net.connect(l.addr).await;
+                // the dialer names the identity it expects in half of the arrivals (what a rejected
+                // dialer observes must not depend on how it dialed)
+                let pinned = rng.gen_bool(0.5);
+                let r = if pinned { d.net.connect_with_peer_id(l.addr, l.peer_id).await } else { d.net.connect(l.addr).await };
                 let dt = w.now() - t0;
                 tokio::time::sleep(settle).await;
                 let after = world::sorted(l.net.peers());
